@@ -2457,11 +2457,22 @@ class AxisInterp:
     def ctor(self, e, env, how):
         slots = self.ctor_slots()
         bound = {}
-        for i, a in enumerate(e.args):
+        i = 0
+        for a in e.args:
             if isinstance(a, ast.Starred):
+                # *pair: a tuple whose elements are known fills one slot
+                # per element
+                sv = self.ev(a.value, env)
+                if sv.k == 'tuple' and sv.elts:
+                    for el in sv.elts:
+                        if i < len(slots):
+                            bound[slots[i]] = (a, el)
+                        i += 1
+                    continue
                 break
             if i < len(slots):
                 bound[slots[i]] = (a, self.ev(a, env))
+            i += 1
         for kw in e.keywords:
             if kw.arg is None:
                 # **indices built as {'observation_index': ...}
